@@ -219,6 +219,14 @@ func (t *FnTrans) goStmt(x *ssa.Go) {
 
 // ghostUpdate executes "lhs = expr" where lhs is a ghost global or ghost field.
 func (t *FnTrans) ghostUpdate(g *Clause, env *Env) {
+	if strings.HasPrefix(g.Text, "owe ") {
+		t.oweStmt(g, env)
+		return
+	}
+	if strings.HasPrefix(g.Text, "take ") || strings.HasPrefix(g.Text, "give ") {
+		t.tokenStmt(g, env)
+		return
+	}
 	if strings.HasPrefix(g.Text, "assert ") {
 		e, err := ParseExpr(strings.TrimSpace(g.Text[len("assert "):]))
 		if err != nil {
@@ -780,6 +788,23 @@ func (t *FnTrans) staticMod(x *Expr, ptypes map[string]types.Type, pkg *types.Pa
 			return false
 		}
 		t.wElem(l, u.Elem())
+		return true
+	case x.Op == "call" && x.Name == "monitor":
+		T := t.staticType(x.Args[0], ptypes)
+		if T == nil {
+			return false
+		}
+		n, ok := derefNamed(t.resolve(T))
+		if !ok {
+			return false
+		}
+		ts := t.eng.specs.Types[typeName(n.Origin())]
+		if ts == nil {
+			return false
+		}
+		for _, m := range ts.Monitors {
+			t.monitorWrites(&monRef{ts: ts, mon: m}, tshort(ts.Name), l, nil)
+		}
 		return true
 	case x.Op == "call" && (x.Name == "cells" || x.Name == "allelems"):
 		var T types.Type
